@@ -169,8 +169,31 @@ def compare_runs(case, obs, pred):
     return equal
 
 
+def twin_scenario(rng):
+    """two or three input directories holding files of the same names, plans over a tiny name universe (so that chains,
+    collisions and equal relative destinations across directories are frequent), a random total order"""
+    roots = ["r1", "r2", "r3"][:rng.choice([2, 2, 3])]
+    names = ["a", "b", "c"]
+    spec, plan, keys = {}, {}, []
+    for r in roots:
+        spec[r] = None
+        for nme in rng.sample(names, rng.randint(1, 3)):
+            spec[r + "/" + nme] = "C:" + r + "/" + nme
+            keys.append(r + "|" + nme)
+            dst = rng.choice(["a", "b", "c", "d", "x"])
+            if dst != nme:
+                plan[r + "|" + nme] = dst
+    rng.shuffle(keys)
+    return {"spec": spec, "roots": roots, "explicit": [], "mode": "name", "recursive": False, "hidden": False,
+            "strategy": "stop", "answers": [], "plan": plan, "order": {k: i for i, k in enumerate(keys)}, "sorted": True,
+            "invert": False, "dry": False, "fault_at": None, "answer_style": 0}
+
+
 def gen_random(rng, n, tier):
     for _ in range(n):
+        if rng.random() < 0.2:
+            yield twin_scenario(rng)
+            continue
         yield fsrun.gen_scenario(rng, dry=False, fault=False, strategies=("stop",), links=rng.random() < 0.2,
                                  # (valid names only: a plan made of them is applied or meets a real conflict; some are names
                                  #  that other platforms refuse)
